@@ -187,7 +187,12 @@ def np_st(draw, names, arms, prob_ok=True, defaults_ok=False, metrics=None):
     if name == "TreeBandit":
         tp = draw(st.sampled_from([{}, {"max_depth": 2}, {"min_samples_leaf": 2}, {"max_depth": 1},
                                    {"splitter": "random"}, {"max_features": 1}, {"max_leaf_nodes": 3},
-                                   {"random_state": None, "max_features": 1}, {"random_state": 5, "splitter": "random"}]))
+                                   {"random_state": None, "max_features": 1}, {"random_state": 5, "splitter": "random"},
+                                   # other split criteria: the value scikit-learn keeps in a node is then not the mean
+                                   {"criterion": "absolute_error", "max_depth": 1},
+                                   {"criterion": "absolute_error", "min_samples_leaf": 3},
+                                   {"criterion": "friedman_mse", "max_leaf_nodes": 2},
+                                   {"min_impurity_decrease": 0.5}, {"ccp_alpha": 0.1}, {"min_samples_split": 4}]))
         if defaults_ok and draw(st.integers(0, 2)) == 0:
             return [name, {"_default": True}]
         return [name, {"tree_parameters": dict(tp)}]
